@@ -226,10 +226,24 @@ def _d2(chk, fb, M):
             continue
         cond = strip(f.nodes[iff["cond"]])
         txt = render(cond)
+        rtxt = txt
+        nn_ = cond
+        neg_ = False
+        while nn_["k"] == "UnaryOperator" and nn_.get("op") == "!":
+            nn_ = strip(kids(nn_)[0])
+        if nn_["k"] == "DeclRefExpr":
+            for dn in f.all_nodes():
+                if dn["k"] == "DeclStmt":
+                    for d in dn["decls"]:
+                        if d["id"] == nn_["decl"]["id"] and d.get("init") is not None:
+                            rtxt = _R(f, d["init"])
+        else:
+            rtxt = _R(f, cond)
         ty = render(t)
-        if bname + ".getNumberOfRows()" in txt:
+        txt = txt if rtxt == txt else "%s [= %s]" % (txt, rtxt)
+        if bname + ".getNumberOfRows()" in rtxt:
             height = (t, cond, txt)
-        elif "SMALL" in txt or IND in txt or "ZeroDivisionException" in ty:
+        elif "SMALL" in rtxt or IND in rtxt or "ZeroDivisionException" in ty:
             sing = (t, cond, txt)
     uses = [c for c in f.calls() if c["callee"]["name"] == "permuteCopy"]
     xw = [n for n in _assigns(f, ("=", "-=", "/=", "+=", "*=")) if (_el(f, kids(n)[0]) or ("", []))[0] == xname]
@@ -239,6 +253,21 @@ def _d2(chk, fb, M):
     # what each guard has to precede: the height test every read of B (the permuted copy) and every normal return;
     # the singularity test every normal return (the documented behaviour is the exception, not the absence of side effects)
     must_precede = {"height": uses + rets, "singular": rets}
+    named = {d["id"]: d["init"] for dn in f.all_nodes() if dn["k"] == "DeclStmt" for d in dn["decls"] if d.get("init") is not None and d.get("ty") in ("const bool", "bool")}
+
+    def norm(c, neg=False, depth=0):
+        """(operator, lhs text, rhs text) of a comparison, through negations, named conditions and numeric locals"""
+        c = strip(c)
+        if c["k"] == "UnaryOperator" and c.get("op") == "!":
+            return norm(kids(c)[0], not neg, depth)
+        if c["k"] == "DeclRefExpr" and c["decl"]["id"] in named and depth < 3:
+            return norm(named[c["decl"]["id"]], neg, depth + 1)
+        if c["k"] == "BinaryOperator" and c["op"] in ("==", "!=", "<", "<=", ">", ">="):
+            op = c["op"]
+            if neg:
+                op = {"==": "!=", "!=": "==", "<": ">=", "<=": ">", ">": "<=", ">=": "<"}[op]
+            return (op, _R(f, kids(c)[0]), _R(f, kids(c)[1]))
+        return None
     for label, g, wantop, wanttxt in (("height", height, "!=", None), ("singular", sing, "<", None)):
         if g is None:
             chk.refuted("D2", f.key, "guard:" + label, f.loc(),
@@ -260,18 +289,31 @@ def _d2(chk, fb, M):
             continue
         ok = True
         why = ""
+        nc = norm(cond)
+        unknown_form = False
         if label == "height":
-            c = cond
-            ops = (render(kids(c)[0]), render(kids(c)[1])) if c["k"] == "BinaryOperator" else ("", "")
-            if c["k"] != "BinaryOperator" or c["op"] != "!=" or set(ops) != {bname + ".getNumberOfRows()", "m"}:
-                ok, why = False, "the height test is '%s'; it must refuse every B whose row count differs from m" % txt
-        else:
-            c = cond
-            if c["k"] != "BinaryOperator" or c["op"] not in ("<", "<=") or render(kids(c)[0]) != IND or "SMALL" not in render(kids(c)[1]):
-                if c["k"] == "BinaryOperator" and c["op"] in (">", ">=") and render(kids(c)[1]) == IND and "SMALL" in render(kids(c)[0]):
-                    pass
+            if nc is None:
+                unknown_form = True
+            elif nc[0] != "!=" or {nc[1], nc[2]} != {bname + ".getNumberOfRows()", "m"}:
+                if {nc[1], nc[2]} == {bname + ".getNumberOfRows()", "m"}:
+                    ok, why = False, "the height test is '%s' (%s %s %s); it must refuse every B whose row count differs from m" % (txt, nc[1], nc[0], nc[2])
                 else:
-                    ok, why = False, "the singularity test is '%s'; the documented rule is: smallest pivot magnitude below NumConstants::SMALL() raises ZeroDivisionException" % txt
+                    unknown_form = True
+        else:
+            if nc is None:
+                unknown_form = True
+            else:
+                op, l_, r_ = nc
+                if l_ != IND and r_ == IND:
+                    op, l_, r_ = {"<": ">", "<=": ">=", ">": "<", ">=": "<=", "==": "==", "!=": "!="}[op], r_, l_
+                if l_ == IND and "SMALL" in r_:
+                    if op not in ("<", "<="):
+                        ok, why = False, "the singularity test is '%s' (%s %s %s); the documented rule is: smallest pivot magnitude below NumConstants::SMALL() raises ZeroDivisionException" % (txt, l_, op, r_)
+                else:
+                    unknown_form = True
+        if unknown_form:
+            chk.unknown("D2", f.key, "guard:" + label, f.loc(t), "test '%s' not in a recognised form" % txt)
+            continue
             if ok and "ZeroDivisionException" not in render(t) and "ZeroDivisionException" not in str(t.get("thrown", "")):
                 ok, why = False, "the singularity branch throws %s, not ZeroDivisionException" % (t.get("thrown") or render(t))[:60]
         if ok:
@@ -550,6 +592,28 @@ def _d5(chk, fb, M):
     u = ups[0]
     lp = f.enclosing(u, ("ForStmt",))
     iff = f.enclosing(u, ("IfStmt",))
+    if lp is not None and iff is None:
+        r_ = strip(kids(u)[1])
+        if is_call(r_) and r_["callee"]["qname"] in ("std::min", "bpp::NumTools::min") and len(f.args(r_)) == 2 and V in [render(a) for a in f.args(r_)]:
+            other = [a for a in f.args(r_) if render(a) != V][0]
+            o_ = _resolve(f, other)
+            e_ = _el(f, f.args(o_)[0]) if is_call(o_) and o_["callee"]["name"] in ("abs", "fabs") and f.args(o_) else None
+            if e_ and e_[0] == "LU" and e_[1][0] == e_[1][1]:
+                chk.proved("D5", f.key, "scan-candidate", f.loc(u), "%s = min(%s, |LU(%s, %s)|)" % (V, V, e_[1][0], e_[1][0]))
+                chk.proved("D5", f.key, "scan-keeps-smaller", f.loc(u), "std::min keeps the smaller magnitude")
+                from . import e2 as _e2
+                fun_ = _e2.Fun(fb, f)
+                v_ = [x for x in walk(lp) if x["k"] == "DeclRefExpr" and x["decl"]["name"] == e_[1][0]]
+                rg_ = _range(fun_, v_[0]["decl"]["id"], u) if v_ else None
+                if rg_ is not None and str(rg_[0]) in ("0", "1") and str(rg_[1]) in ("F_m", "F_n"):
+                    chk.proved("D5", f.key, "scan-range", f.loc(lp), "diagonal entries [%s, %s) after the start value" % rg_)
+                elif rg_ is not None:
+                    chk.refuted("D5", f.key, "scan-range", f.loc(lp), "the smallest-pivot scan visits i in %s, not every diagonal entry: a zero pivot outside that range is not noticed and solve divides by it" % (rg_,), witness={"input": "diag(1, 1, 0)"})
+                else:
+                    chk.unknown("D5", f.key, "scan-range", f.loc(lp), "scan loop not a counted loop")
+                if f is solve:
+                    chk.proved("D5", f.key, "returns-indicator", f.loc(rets0[0]), "solve returns %s" % V)
+                return
     if lp is None or iff is None:
         chk.unknown("D5", f.key, "scan-update", f.loc(u), "the update of '%s' is not a conditional inside a counted loop" % V)
         return
@@ -761,7 +825,28 @@ def _d6(chk, fb, M):
 # ------------------------------------------------------------------------------------------------ D7
 
 def _d7(chk, fb, M):
-    f = M["ctor"]
+    ctor = M["ctor"]
+    try:
+        _pivot_search(chk, fb, ctor)
+    except AnalysisBroken:
+        # the search may live in a helper of the class (size_t p = findPivotRow_(k))
+        helpers = []
+        for c in ctor.calls():
+            if c["callee"].get("inrepo") and c["callee"].get("cls") == LU and (c["callee"].get("ret") or "").startswith("unsigned"):
+                helpers += [t for t in fb.targets(c) if t.body is not None and t.cfg is not None]
+        done = False
+        for h in helpers:
+            try:
+                _pivot_search(chk, fb, h)
+                done = True
+                break
+            except AnalysisBroken:
+                continue
+        if not done:
+            raise
+
+
+def _pivot_search(chk, fb, f):
     pws = [n for n in _assigns(f) if render(kids(n)[0]) == "p"]
     cands = []
     for n in walk(f.body):
